@@ -120,14 +120,38 @@ def read_item(o, i, v):
         t.log("R", (id(o), "[%s]" % key), v, _site())
 
 
-def method_call(f):
-    """called from rt.call: a mutating method of a shared container is a write to the whole container"""
+_READERS = {"get", "keys", "values", "items", "copy", "index", "count", "__contains__", "__getitem__", "__iter__", "__len__"}
+
+
+def method_call(f, args=()):
+    """called from rt.call: a mutating method of a shared container is a write to the whole container, a querying
+    method a read of the whole container"""
     t = TR
     if t is None:
         return
     s = getattr(f, "__self__", None)
-    if s is not None and id(s) in t.shared and getattr(f, "__name__", "") in _MUTATORS:
-        t.log("W", (id(s), "*"), object(), _site())
+    if s is not None and id(s) in t.shared:
+        n = getattr(f, "__name__", "")
+        if n in _MUTATORS:
+            t.log("W", (id(s), "*"), object(), _site())
+        elif n in ("get", "__getitem__", "__contains__") and args:
+            # a keyed read: the location is the entry, the value what is there now
+            try:
+                key = repr(args[0])
+                cur = s.get(args[0], None) if hasattr(s, "get") else None
+            except Exception:
+                key, cur = "?", None
+            t.log("R", (id(s), "[%s]" % key), cur, _site())
+        elif n in _READERS:
+            t.log("R", (id(s), "*"), object(), _site())
+
+
+def it(o):
+    """iteration over / unpacking of a shared container reads the whole container"""
+    t = TR
+    if t is not None and id(o) in t.shared:
+        t.log("R", (id(o), "*"), object(), _site())
+    return o
 
 
 def restore(tr):
